@@ -1243,7 +1243,7 @@ func fixedScenarios() []Scenario {
 // map removal; the Notify persist of the first is parked between its two topic reads of
 // GetMetadata until both removals are done; SIGKILL right after its rename.  When the
 // persist read topic a first, nsqd.dat = {a/x, b}: the daemon passed through
-// {a/x,b/y} -> {a,b/y} -> {a,b} only.  (Go's map iteration starts at a random offset; with
+// {} {a} {a,b} {a,b/y} {a/x,b/y} {a,b/y} {a,b} only (b/y is created before a/x).  (Go's map iteration starts at a random offset; with
 // two entries the order a,b has probability 7/8, so a few attempts suffice.)
 const k8Wait = "notify:before-send|5|delete-channel:before-remove|2,notify:before-send|6|delete-channel:before-remove|2," +
 	"delete-channel:before-remove|1|getmetadata:topic|9,delete-channel:before-remove|2|delete-channel:after-remove|1," +
@@ -1263,7 +1263,8 @@ func runMixOnce(bin, scratch string) (file *Doc, restarted bool, seen Doc, note 
 		d.sigkill()
 		return nil, false, nil, "", fmt.Errorf("k8: daemon did not start\n%s", d.tail())
 	}
-	for _, o := range []Op{{Kind: "ct", Topic: "a"}, {Kind: "ct", Topic: "b"}, {Kind: "cc", Topic: "a", Channel: "x"}, {Kind: "cc", Topic: "b", Channel: "y"}} {
+	// b/y is created BEFORE a/x, so that {a/x, b} has never been a live state
+	for _, o := range []Op{{Kind: "ct", Topic: "a"}, {Kind: "ct", Topic: "b"}, {Kind: "cc", Topic: "b", Channel: "y"}, {Kind: "cc", Topic: "a", Channel: "x"}} {
 		if st, err := doOp(d, o); err != nil || st != 200 {
 			d.sigkill()
 			return nil, false, nil, "", fmt.Errorf("k8: set-up request failed: %v %d", err, st)
@@ -1315,7 +1316,12 @@ func k8Listed() bool {
 }
 
 func runMix(bin, scratch string, sc Scenario, o *lib.Out) (lib.Case, bool, error) {
+	// every live state since the first start, in order
 	passed := []Doc{
+		{},
+		{{Name: "a", Chans: []DChan{}}},
+		{{Name: "a", Chans: []DChan{}}, {Name: "b", Chans: []DChan{}}},
+		{{Name: "a", Chans: []DChan{}}, {Name: "b", Chans: []DChan{{"y", false}}}},
 		{{Name: "a", Chans: []DChan{{"x", false}}}, {Name: "b", Chans: []DChan{{"y", false}}}},
 		{{Name: "a", Chans: []DChan{}}, {Name: "b", Chans: []DChan{{"y", false}}}},
 		{{Name: "a", Chans: []DChan{}}, {Name: "b", Chans: []DChan{}}},
@@ -1351,7 +1357,7 @@ func runMix(bin, scratch string, sc Scenario, o *lib.Out) (lib.Case, bool, error
 	coq := fmt.Sprintf("(Mix %s %s %s %s)", lib.CoqList(ps), coqODoc(file), lib.CoqBool(restarted), coqDoc(seen))
 	c := lib.Case{Name: sc.Name, Coq: coq, Input: sc, Tags: []string{"kind=mix", "kf=K8", fmt.Sprintf("k8_reproduced=%v", reproduced)}, Nontrivial: true,
 		Obs: map[string]interface{}{"file": note, "restarted": restarted, "seen": seen, "attempts": attempts, "reproduced": reproduced,
-			"schedule": "create a,b,a/x,b/y (idle after each); delete a/x and delete b/y concurrently; NSQ_VERIF_WAIT=" + k8Wait + "; NSQ_VERIF_KILL=persist:after-rename:6; restart"}}
+			"schedule": "create a,b,b/y,a/x (idle after each); delete a/x and delete b/y concurrently; NSQ_VERIF_WAIT=" + k8Wait + "; NSQ_VERIF_KILL=persist:after-rename:6; restart"}}
 	// a violating case is emitted only when the finding is listed (otherwise it is reported as a stat)
 	return c, !reproduced || k8Listed(), nil
 }
